@@ -584,21 +584,35 @@ def _plan(tier):
         for o in enumerate_ops(root):
             items.append((ti, [h, o], 1))
         if tier == "thorough":
-            # all sequences of length 3 on the small trees; length 4 with a hash(root) prefix on them;
-            # length 3 with any hash op first on the Select trees
-            if ti in small:
+            # all sequences of length 3 on the small trees (except f(a, b, c): x IN (1, 2, 3) has the same shape);
+            # length 4 with hash(root) first on the two smallest trees; length 3 with any hash op first on the
+            # Select trees.  A first op that already breaks the contract is reported by the length-1 item and
+            # never extended.
+            def clean(r):
+                return r.exc is None and isinstance(r.root, Expr) and not wf(r.root) and not hash_ok(r.root)
+
+            if ti in small and ti != 2:
                 for o in ops:
                     r = apply_op(_parse_tree(ti), o, check=False)
-                    if r.exc is not None or not isinstance(r.root, Expr):
+                    if not clean(r):
                         continue
                     for o2 in enumerate_ops(r.root):
                         items.append((ti, [o, o2], 1))
-                        if o[0] == "hash" and o[1] == 0 and len(TREES[ti]) <= 12:
+                if ti in (1, 7):
+                    for o in enumerate_ops(root):  # root: cache fully populated
+                        tr = _parse_tree(ti)
+                        hash(tr)
+                        r = apply_op(tr, o, check=False)
+                        if not clean(r):
+                            continue
+                        for o2 in enumerate_ops(r.root):
                             items.append((ti, [h, o, o2], 1))
             else:
                 for o in ops:
                     if o[0] in HASH_OPS and not (o[0] == "hash" and o[1] == 0):
                         r = apply_op(_parse_tree(ti), o, check=False)
+                        if not clean(r):
+                            continue
                         for o2 in enumerate_ops(r.root):
                             items.append((ti, [o, o2], 1))
     return items
@@ -627,6 +641,10 @@ def _corpus_plan(tier):
 
 
 def run(tier, seed):
+    from sqlglot.dialects.dialect import Dialect
+
+    for _d in corpus.dialects():  # import every dialect module once, before the pool forks
+        Dialect.get_or_raise(_d or None)
     plan = _plan(tier)
     cplan = _corpus_plan(tier)
     if seed:
@@ -703,7 +721,7 @@ def run(tier, seed):
         "bound": (
             f"part A: {len(TREES)} tiny trees; alphabet instantiated at every node position; all op sequences of length <= 2, "
             "plus length 3 with hash(root) first"
-            + ("; thorough: all length 3 on the 6 small trees, length 4 with hash(root) first on trees <= 12 chars, length 3 with any hash op first on the Select trees" if tier == "thorough" else "")
+            + ("; thorough: all length 3 on the 5 small trees (a + b, CASE, AND/OR, IN, SELECT 1), length 4 with hash(root) first on 'a + b' and 'SELECT 1', length 3 with any hash op first on the other trees" if tier == "thorough" else "")
             + f"; part B: {len(cplan)} (statement, read dialect, schema?, prehash?) items through parse/hash/sql/all {len(_opt.RULES)} optimizer rules"
         ),
         "exhaustive": True,
